@@ -282,11 +282,21 @@ pub fn execute(case: &str) -> String {
     match t[0] {
         "enc" => exec_enc(&t),
         "dec" => exec_dec(&t),
+        "penc" => exec_penc(&t),
+        "pdec" => exec_pdec(&t),
         _ => "bad-case".into(),
     }
 }
 
 fn exec_enc(t: &[&str]) -> String {
+    exec_enc_with(t, false)
+}
+
+fn exec_penc(t: &[&str]) -> String {
+    exec_enc_with(t, true)
+}
+
+fn exec_enc_with(t: &[&str], prost: bool) -> String {
     let server = t[1] == "s";
     let comp = parse_enc(t[2]);
     let disable = t[3] == "d";
@@ -303,17 +313,26 @@ fn exec_enc(t: &[&str]) -> String {
         })
         .collect();
     let src = ScriptedSource { evs, polls_after_end: 0 };
-    let enc = RawEnc(BufferSettings::new(buf_size, yield_thr));
-    let mut body: Pin<Box<dyn Body<Data = Bytes, Error = Status>>> = if server {
-        let ovr = if disable {
-            tonic::codec::verif_disable_compression_override()
+    let bs = BufferSettings::new(buf_size, yield_thr);
+    let ovr = || if disable { tonic::codec::verif_disable_compression_override() } else { Default::default() };
+    let body: Pin<Box<dyn Body<Data = Bytes, Error = Status>>> = if prost {
+        use tokio_stream::StreamExt;
+        let enc = tonic::codec::ProstCodec::<prost_types::Any, prost_types::Any>::raw_encoder(bs);
+        let src = src.map(|r| r.map(|v| <prost_types::Any as prost::Message>::decode(&v[..]).expect("case items are valid Any")));
+        if server {
+            Box::pin(EncodeBody::new_server(enc, src, comp, ovr(), max))
         } else {
-            Default::default()
-        };
-        Box::pin(EncodeBody::new_server(enc, src, comp, ovr, max))
+            Box::pin(EncodeBody::new_client(enc, src, comp, max))
+        }
     } else {
-        Box::pin(EncodeBody::new_client(enc, src, comp, max))
+        let enc = RawEnc(bs);
+        if server {
+            Box::pin(EncodeBody::new_server(enc, src, comp, ovr(), max))
+        } else {
+            Box::pin(EncodeBody::new_client(enc, src, comp, max))
+        }
     };
+    let mut body = body;
     let waker = noop_waker();
     let mut cx = Context::from_waker(&waker);
     let mut out = Vec::new();
@@ -337,6 +356,14 @@ fn exec_enc(t: &[&str]) -> String {
 }
 
 fn exec_dec(t: &[&str]) -> String {
+    exec_dec_with(t, false)
+}
+
+fn exec_pdec(t: &[&str]) -> String {
+    exec_dec_with(t, true)
+}
+
+fn exec_dec_with(t: &[&str], prost: bool) -> String {
     let enc = parse_enc(t[2]);
     let max = opt_usize(t[3]);
     let buf_size: usize = t[4].parse().unwrap();
@@ -352,20 +379,37 @@ fn exec_dec(t: &[&str]) -> String {
         .collect();
     let after = std::sync::Arc::new(std::sync::atomic::AtomicUsize::new(0));
     let body = ScriptedBody { evs, polls_after_end: after.clone() };
-    let dec = RawDec(BufferSettings::new(buf_size, 32 * 1024));
-    let mut stream: Streaming<Vec<u8>> = if t[1] == "req" {
-        Streaming::new_request(dec, body, enc, max)
-    } else if t[1] == "empty" {
-        Streaming::new_empty(dec, body)
-    } else {
-        let code: u16 = t[1][4..].parse().unwrap();
-        Streaming::new_response(dec, body, http::StatusCode::from_u16(code).unwrap(), enc, max)
-    };
+    let bs = BufferSettings::new(buf_size, 32 * 1024);
     let waker = noop_waker();
     let mut cx = Context::from_waker(&waker);
     let mut out = Vec::new();
+    macro_rules! mk {
+        ($dec:expr) => {
+            if t[1] == "req" {
+                Streaming::new_request($dec, body, enc, max)
+            } else if t[1] == "empty" {
+                Streaming::new_empty($dec, body)
+            } else {
+                let code: u16 = t[1][4..].parse().unwrap();
+                Streaming::new_response($dec, body, http::StatusCode::from_u16(code).unwrap(), enc, max)
+            }
+        };
+    }
+    enum Either {
+        Raw(Streaming<Vec<u8>>),
+        Prost(Streaming<prost_types::Any>),
+    }
+    let mut stream = if prost {
+        Either::Prost(mk!(tonic::codec::ProstCodec::<prost_types::Any, prost_types::Any>::raw_decoder(bs)))
+    } else {
+        Either::Raw(mk!(RawDec(bs)))
+    };
     for _ in 0..npolls {
-        match Pin::new(&mut stream).poll_next(&mut cx) {
+        let r: Poll<Option<Result<Vec<u8>, Status>>> = match &mut stream {
+            Either::Raw(s) => Pin::new(s).poll_next(&mut cx),
+            Either::Prost(s) => Pin::new(s).poll_next(&mut cx).map(|o| o.map(|r| r.map(|m| prost::Message::encode_to_vec(&m)))),
+        };
+        match r {
             Poll::Pending => out.push("p".to_string()),
             Poll::Ready(None) => out.push("n".to_string()),
             Poll::Ready(Some(Err(st))) => out.push(st_tok("e", &st)),
@@ -591,13 +635,25 @@ pub fn gen_dir(rng: &mut Rng) -> String {
 }
 
 /// Valid stream of messages (some compressed when an encoding is negotiated).
+/// a prost-serialized `google.protobuf.Any` with random fields
+pub fn gen_any_msg(rng: &mut Rng, maxlen: usize) -> Vec<u8> {
+    let n = rng.below(12) as usize;
+    let url: String = (0..n).map(|_| char::from(b'a' + rng.below(26) as u8)).collect();
+    let any = prost_types::Any { type_url: if rng.chance(1, 4) { String::new() } else { url }, value: gen_msg(rng, maxlen) };
+    prost::Message::encode_to_vec(&any)
+}
+
 pub fn gen_valid_stream(rng: &mut Rng, enc: Option<CompressionEncoding>, maxlen: usize) -> (Vec<u8>, Vec<usize>, Vec<Vec<u8>>) {
+    gen_valid_stream_with(rng, enc, maxlen, false)
+}
+
+pub fn gen_valid_stream_with(rng: &mut Rng, enc: Option<CompressionEncoding>, maxlen: usize, prost: bool) -> (Vec<u8>, Vec<usize>, Vec<Vec<u8>>) {
     let n = rng.below(5) as usize;
     let mut bytes = Vec::new();
     let mut starts = Vec::new();
     let mut msgs = Vec::new();
     for _ in 0..n {
-        let m = gen_msg(rng, maxlen);
+        let m = if prost { gen_any_msg(rng, maxlen) } else { gen_msg(rng, maxlen) };
         starts.push(bytes.len());
         match enc {
             Some(e) if rng.chance(3, 4) => bytes.extend(frame(1, &oracle_compress(e, &m))),
